@@ -255,13 +255,15 @@ func c02Seeds() [][]byte {
 }
 
 func driveC02(c *h.Ctx) error {
-	c.Rule("a case is (byte string, decode target); inputs: exhaustive single-item shapes type 0..12 x declared length x available bytes alone and nested in a structure with exact/short/long length, TTLV-aware mutations (1-3 per input) of valid generic trees and of real KMIP messages, truncations at every offset of a message, short random strings; non-trivial = distinct input")
+	c.Rule("a case is (byte string, decode target); inputs: exhaustive single-item shapes type 0..12 x declared length x available bytes alone and nested in a structure with exact/short/long length, TTLV-aware mutations (1-3 per input) of valid generic trees and of real KMIP messages, truncations at every offset of a message, short random strings; and, for the XML and JSON decoders, the text forms of real messages and generic trees with byte-level and token-level damage (truncation, byte replacement, range deletion / duplication, other type names, other value literals and JSON value kinds, missing value); non-trivial = distinct input")
 	var ins []c02in
 	if c.Replay != nil {
 		cs, _ := c.Replay["case"].(map[string]any)
 		hx, _ := cs["input_hex"].(string)
 		b, _ := hex.DecodeString(hx)
-		ins = []c02in{{b, "replay"}}
+		if f, _ := cs["format"].(string); f == "" {
+			ins = []c02in{{b, "replay"}}
+		}
 	} else {
 		ins = c02Shapes()
 		nmut := c.Pick(700, 12000)
@@ -379,6 +381,8 @@ func driveC02(c *h.Ctx) error {
 	if c.Replay == nil {
 		opRows = c02OpsRows(c, c.Pick(600, 8000))
 	}
+	// the text encodings on damaged documents (oracle only; their model side is C04's)
+	c02Text(c)
 	var sb strings.Builder
 	sb.WriteString("From Coq Require Import ZArith List Bool.\nFrom KV Require Import Base Wire Cursor Reader Cases CodecRows.\nImport ListNotations.\nOpen Scope Z_scope.\n")
 	d, e := h.Chunk("drows", "list Z * obs item", rows, 200)
